@@ -12,7 +12,12 @@ Tokens (no spaces inside a token):
 * obs     : `id>map` entries joined by `;`; empty is `-`
 * encs    : `id:hex` entries joined by `;`; empty is `-`
 
+* strs    : strings joined by `,`; the empty list is `-`
+* wmembers: `id:hex` entries joined by `;` (member id, metadata bytes); empty is `-`
+
 Requests: `rr members map`, `gen members map`, `encode version map`, `decode hex`,
+`genb wmembers map`, `leader wmembers map` (the map is what `_load_topic_partitions` answers),
+`meta-enc version strs`, `meta-dec hex`, `utf8-enc string`, `utf8-dec hex`,
 `mon members map obs`, `mon-own map map`, `mon-same obs obs`.
 -/
 namespace Driver.Assign
@@ -47,6 +52,18 @@ def parseMembers (s : String) : Option (List Member) :=
       let id ← parseStr id
       let ts ← if ts == "" then some [] else (ts.splitOn ",").mapM parseStr
       some (id, ts)
+    | _ => none
+
+def parseStrs (s : String) : Option (List Str) :=
+  if s == "-" then some [] else (s.splitOn ",").mapM parseStr
+
+def showStrs (l : List Str) : String := if l.isEmpty then "-" else ",".intercalate (l.map showStr)
+
+def parseWMembers (s : String) : Option (List (Str × Bytes)) :=
+  if s == "-" then some [] else
+  (s.splitOn ";").mapM fun e =>
+    match e.splitOn ":" with
+    | [id, h] => do some ((← parseStr id), (← parseHex h))
     | _ => none
 
 def parseObs (s : String) : Option Obs :=
@@ -98,6 +115,36 @@ def step (st : Unit) (line : String) : Unit × List String :=
   | ["decode", hex] => match parseHex hex with
     | some b => match decodeAssignment b with
       | .ok m => (st, ["map " ++ showMap m])
+      | .error e => (st, [showErr e])
+    | none => (st, ["bad-op"])
+  | ["genb", ms, tp] => match parseWMembers ms, parseMap tp with
+    | some ms, some tp => match generateAssignmentsB ms tp with
+      | .ok encs => (st, ["enc " ++ showEncs encs])
+      | .error e => (st, [showErr e])
+    | _, _ => (st, ["bad-op"])
+  | ["leader", ms, tp] => match parseWMembers ms, parseMap tp with
+    | some ms, some tp => match leaderAssign ms (fun _ => tp) with
+      | .ok encs => (st, ["enc " ++ showEncs encs])
+      | .error e => (st, [showErr e])
+    | _, _ => (st, ["bad-op"])
+  | ["meta-enc", v, ts] => match v.toInt?, parseStrs ts with
+    | some v, some ts => match encodeMetadata v ts [] with
+      | .ok b => (st, ["bytes " ++ toHex b])
+      | .error e => (st, [showErr e])
+    | _, _ => (st, ["bad-op"])
+  | ["meta-dec", hex] => match parseHex hex with
+    | some b => match decodeMetadata b with
+      | .ok (v, ts, ud) => (st, [s!"meta {v} {showStrs ts} {match ud with | some u => toHex u | none => "null"}"])
+      | .error e => (st, [showErr e])
+    | none => (st, ["bad-op"])
+  | ["utf8-enc", t] => match parseStr t with
+    | some t => match utf8Encode t with
+      | .ok b => (st, ["bytes " ++ toHex b])
+      | .error e => (st, [showErr e])
+    | none => (st, ["bad-op"])
+  | ["utf8-dec", hex] => match parseHex hex with
+    | some b => match utf8Decode b with
+      | .ok t => (st, ["str " ++ showStr t])
       | .error e => (st, [showErr e])
     | none => (st, ["bad-op"])
   | ["mon", ms, tp, obs] => match parseMembers ms, parseMap tp, parseObs obs with
